@@ -388,8 +388,7 @@ Definition own_nv_facts (x' : tc) (v y : N) (vs : list vote) (pp : bref) (b : op
    \/ (forall vt', In vt' vs -> v_proof vt' = None)).
 
 Definition origin (x x' : tc) (v y : N) : Prop :=
-  v = 0
-  \/ (exists to r s, In (OSend to (MP r s)) (tc_out x') /\ ~ In (OSend to (MP r s)) (tc_out x) /\ r_view r = v /\ r_hash r = y)
+  (exists to r s, In (OSend to (MP r s)) (tc_out x') /\ ~ In (OSend to (MP r s)) (tc_out x) /\ r_view r = v /\ r_hash r = y)
   \/ (exists to ty i hh vs sg pp pps b, In (OSend to (MNV ty i hh v vs sg pp pps b)) (tc_out x') /\ own_nv_facts x' v y vs pp b).
 
 (* the proof inside a vote this node casts is made of what it has stored *)
@@ -424,9 +423,9 @@ Record step_sum (e : tev) (x x' : tc) : Prop := {
            exists v h s, t_c (tc_t x') = store_in (t_c (tc_t x)) v h s /\ s_ok s = true /\ isMember (t_cm (tc_t x)) (s_id s) = true;
   ss_pp : forall v en, get_pp (tc_t x') v = Some en -> get_pp (tc_t x) v = Some en \/
            (pe_snd en = my_sig c /\ r_view (pe_ref en) = v /\ In (v, r_hash (pe_ref en)) (E x')) \/
-           (exists r s b wm' sh', e = TMsg (MPP r s b) wm' sh' /\ en = {| pe_ref := r; pe_snd := s; pe_blk := b |} /\ r_view r = v) \/
+           (exists r s b wm' sh', e = TMsg (MPP r s b) wm' sh' /\ en = {| pe_ref := r; pe_snd := s; pe_blk := b |} /\ r_view r = v /\ In (v, r_hash r) (E x')) \/
            (exists nty ninst nh nvw vs sg pp pps b wm' sh', e = TMsg (MNV nty ninst nh nvw vs sg pp pps b) wm' sh' /\
-                en = {| pe_ref := pp; pe_snd := pps; pe_blk := b |} /\ r_view pp = v);
+                en = {| pe_ref := pp; pe_snd := pps; pe_blk := b |} /\ r_view pp = v /\ In (v, r_hash pp) (E x'));
   ss_vc : forall v vt b, In (v, (vt, b)) (t_vc (tc_t x')) -> In (v, (vt, b)) (t_vc (tc_t x)) \/
            (s_id (v_snd vt) = me /\ In vt (Vt me x')) \/ (exists wm' sh', e = TMsg (MVC vt b) wm' sh')
 }.
@@ -595,7 +594,7 @@ Proof.
   - rewrite <- K9. exact S11.
   - intros v' y H. rewrite S2 in H. destruct H as [H|H]; [|left; rewrite K2 in H; exact H].
     inversion H; subst v' y. right. split; [rewrite S1; symmetry; exact Ev|].
-    right; left. destruct S17 as (to & hh & Hmp). exists to, (mk_ref T_PREPARE c hh v h), (my_sig c). split; [exact Hmp|]. split; [|cbn; auto].
+    left. destruct S17 as (to & hh & Hmp). exists to, (mk_ref T_PREPARE c hh v h), (my_sig c). split; [exact Hmp|]. split; [|cbn; auto].
     intro Hold. destruct (ti_mp _ _ TI _ _ _ Hold) as (_ & _ & _ & en & G & _). cbn [mk_ref r_view] in G. rewrite Hnone in G. discriminate.
   - intros v' y H. destruct (proj2 S12 _ H) as [H'|H']; [left; rewrite K3 in H'; exact H'|].
     inversion H'; subst v' y. destruct S15 as [(Q1 & Q2)|(Q1 & Q2 & Q3 & Q4)].
@@ -613,8 +612,8 @@ Proof.
   - destruct Sceq as [Sceq|Sceq]; [left; rewrite Sceq; exact K9|right]. exists v, h, (my_sig c). rewrite K9 in Sceq. auto.
   - intros v' en H. destruct (S6 _ _ H) as [H'|[-> ->]]; [left; apply GP; exact H'|].
     right; right. destruct (Horig _ eq_refl) as [(r0 & s0 & b0 & wm' & sh' & A & B & C0)|(nty & ninst & nh & nvw & vs & sg & pp & pps & b0 & wm' & sh' & A & B & C0)].
-    + left. exists r0, s0, b0, wm', sh'. repeat split; auto.
-    + right. exists nty, ninst, nh, nvw, vs, sg, pp, pps, b0, wm', sh'. repeat split; auto.
+    + left. exists r0, s0, b0, wm', sh'. repeat split; auto. inversion B; subst. rewrite S2. left; reflexivity.
+    + right. exists nty, ninst, nh, nvw, vs, sg, pp, pps, b0, wm', sh'. repeat split; auto. inversion B; subst. rewrite S2. left; reflexivity.
   - intros v' vt b' H. left. rewrite S4, K10 in H. exact H.
 Qed.
 
@@ -702,7 +701,7 @@ Proof.
   - intros v' y H. destruct S11 as [[Ee _]|(h & Ee & Ev & Hpp & to & ty & i & hh & vs & sg & pp & pps & b & Eo & Hh & Hv)].
     + rewrite Ee, HE in H. left. exact H.
     + rewrite Ee, HE in H. destruct H as [H|H]; [|left; exact H]. inversion H; subst v' y. right. split; [symmetry; exact Ev|].
-      right; right.
+      right.
       assert (Hin : In (OSend to (MNV ty i hh v vs sg pp pps b)) (tc_out x')) by (rewrite Eo; left; reflexivity).
       assert (Hnot : ~ In (OSend to (MNV ty i hh v vs sg pp pps b)) (tc_out xa)).
       { intro Hold. apply Hnv in Hold.
@@ -738,11 +737,22 @@ Proof.
     right; left. split; [exact H1|]. rewrite S1. split; [exact H2|]. rewrite S3. split; [exact H3|]. split; [exact H4|].
     unfold hash_at in *. destruct (get_pp (tc_t xa) v') as [en|] eqn:G; [rewrite (S10 _ _ G); exact H5|]. destruct (si_prep _ _ SIa v' H3) as (en & _ & G' & _). congruence.
   - rewrite S7. exact Tceq.
-  - intros v' en H. destruct S11 as [[Ee Hpp]|(h & Ee & Ev & Hpp & _)].
-    + apply Hpp in H. apply T15 in H. destruct H as [H|[(H1 & H2 & H3)|H]]; auto. right; left. rewrite Ee. auto.
-    + destruct (Hpp _ _ H) as [H'|(-> & H1 & H2 & H3)].
-      * apply T15 in H'. destruct H' as [H'|[(K1 & K2 & K3)|H']]; auto. right; left. rewrite Ee. split; [exact K1|]. split; [exact K2|right; exact K3].
-      * right; left. split; [exact H1|]. split; [exact H2|]. rewrite Ee, H3. left; reflexivity.
+  - intros v' en H.
+    assert (INCL : incl (E xa) (E x')) by (destruct S11 as [[Ee _]|(h & Ee & _)]; rewrite Ee; [apply incl_refl|apply incl_tl, incl_refl]).
+    assert (OLD : get_pp (tc_t xa) v' = Some en -> get_pp (tc_t x) v' = Some en \/
+           (pe_snd en = my_sig c /\ r_view (pe_ref en) = v' /\ In (v', r_hash (pe_ref en)) (E x')) \/
+           (exists r s b wm' sh', e = TMsg (MPP r s b) wm' sh' /\ en = {| pe_ref := r; pe_snd := s; pe_blk := b |} /\ r_view r = v' /\ In (v', r_hash r) (E x')) \/
+           (exists nty ninst nh nvw vs sg pp pps b wm' sh', e = TMsg (MNV nty ninst nh nvw vs sg pp pps b) wm' sh' /\
+                en = {| pe_ref := pp; pe_snd := pps; pe_blk := b |} /\ r_view pp = v' /\ In (v', r_hash pp) (E x'))).
+    { intro H'. apply T15 in H'. destruct H' as [H'|[(K1 & K2 & K3)|[(r & s & b & wm' & sh' & A & B & C0 & D0)|(nty & ninst & nh & nvw & vs & sg & pp & pps & b & wm' & sh' & A & B & C0 & D0)]]].
+      - left; exact H'.
+      - right; left. split; [exact K1|]. split; [exact K2|apply INCL; exact K3].
+      - right; right; left. exists r, s, b, wm', sh'. repeat split; auto.
+      - right; right; right. exists nty, ninst, nh, nvw, vs, sg, pp, pps, b, wm', sh'. repeat split; auto. }
+    destruct S11 as [[Ee Hpp]|(h & Ee & Ev & Hpp & _)].
+    + apply OLD. apply Hpp. exact H.
+    + destruct (Hpp _ _ H) as [H'|(-> & H1 & H2 & H3)]; [apply OLD; exact H'|].
+      right; left. split; [exact H1|]. split; [exact H2|]. rewrite Ee, H3. left; reflexivity.
   - intros v' vt b H. rewrite S5 in H. apply T16 in H. destruct H as [H|[[H1 H2]|H]]; auto.
     right; left. split; [exact H1|]. rewrite EV. exact H2.
 Qed.
